@@ -37,6 +37,26 @@ def delete_expectation(ids, present):
     return cur, missing
 
 
+def hist_judge(c, k, a, prev):
+    """a story delete on a live object: named stories that are present must go, absent ones must be reported"""
+    if 'classerr' in a or a.get('err'):
+        return None
+    if a['cls'] not in ('StoryDelete', 'EAStoryDelete'):
+        return None
+    msg = X.elem_to_tree(impl.parse_doc(c['msgs'][k]))
+    b = base_tag(msg)
+    ids = texts(b[4], 'storyID') if a['cls'] == 'StoryDelete' else [t for s_ in X.findall(b, 'element_source') for t in texts(s_[4], 'storyID')]
+    ids0 = story_ids(prev)
+    if any(isinstance(i, tuple) for i in ids0):
+        return None
+    want, missing = delete_expectation(ids, ids0)
+    if a['warns'].count('StoryNotFoundWarning') != missing:
+        return 'step %d (%s) named %r in a running order holding %r: %d StoryNotFoundWarning, expected %d' % (k, a['cls'], ids, ids0, a['warns'].count('StoryNotFoundWarning'), missing)
+    if story_ids(a['tree']) != want:
+        return 'step %d (%s) named %r: stories afterwards %r, expected %r' % (k, a['cls'], ids, story_ids(a['tree']), want)
+    return None
+
+
 class Check(AddCheck):
     pid = 'C06'
     needs_claims = False
@@ -74,6 +94,37 @@ class Check(AddCheck):
 
     def nontrivial(self, case, io, before):
         return bool(io.get('err') or io.get('warns'))
+
+    def run(self, tier, rng, log):
+        res = super().run(tier, rng, log)
+        from checks.base import live_histories, compare_histories
+        hcases = list(live_histories(tier, rng))
+        hn, hdis, hvio = compare_histories(hcases, lambda s_: (s_.get('classerr'), s_.get('cls'), s_.get('err'), tuple(sorted(s_.get('warns') or ())),
+                                                              tuple(map(repr, story_ids(s_['tree']) or [])) if 'tree' in s_ else None), hist_judge)
+        res['evaluations'] += hn
+        res['disagreements'] += hdis
+        res['violations'] += hvio
+        res['extra']['live_history_steps'] = hn
+        return res
+
+    def replay(self, rep):
+        case = rep.get('case') or {}
+        if case.get('kind') == 'hist':
+            steps = impl.run_hist(case['ro'], case['msgs'])
+            prev = X.elem_to_tree(impl.parse_doc(case['ro']))
+            for k, a in enumerate(steps):
+                what = hist_judge(case, k, a, prev)
+                if what:
+                    return {'violation': True, 'what': what}
+                if 'tree' in a:
+                    prev = a['tree']
+            return {'violation': False}
+        return super().replay(rep)
+
+    def shrink(self, v):
+        if v['case'].get('kind') == 'hist':
+            return v
+        return super().shrink(v)
 
     def violation(self, case, io, claim, before):
         if 'classerr' in io or io.get('err') not in (None,):
